@@ -68,6 +68,7 @@ RoDef    == [name |-> "RoPt", kind |-> "struct", ro |-> TRUE,
 MsgDef   == [name |-> "Msg", kind |-> "message",
              fields |-> << MFld(1, "a", P("int32"), FALSE), MFld(2, "b", P("string"), FALSE),
                            MFld(4, "c", P("uint8"), TRUE) >>]
+EmptyMsgDef == [name |-> "EmptyMsg", kind |-> "message", fields |-> <<>>]
 UnDefs   == << [name |-> "Un", kind |-> "union",
                 branches |-> << [idx |-> 1, n |-> "UnA"], [idx |-> 3, n |-> "UnB"] >>],
                [name |-> "UnA", kind |-> "struct", ro |-> FALSE, inner |-> "Un",
@@ -87,6 +88,7 @@ RecLeaves  == << [t |-> R("Inner"), sup |-> <<InnerDef>>, tag |-> "struct"],
                  [t |-> R("Empty"), sup |-> <<EmptyDef>>, tag |-> "emptystruct"],
                  [t |-> R("RoPt"),  sup |-> <<RoDef>>,    tag |-> "rostruct"],
                  [t |-> R("Msg"),   sup |-> <<MsgDef>>,   tag |-> "message"],
+                 [t |-> R("EmptyMsg"), sup |-> <<EmptyMsgDef>>, tag |-> "emptymessage"],
                  [t |-> R("Un"),    sup |-> UnDefs,       tag |-> "union"] >>
 Leaves == PrimLeaves \o EnumLeaves \o RecLeaves
 
@@ -115,7 +117,7 @@ Shapes ==
 
 -----------------------------------------------------------------------------
 (* Contexts: where the shape sits *)
-Ctxs == <<"struct", "rostruct", "message", "depmsg", "union">>
+Ctxs == <<"struct", "rostruct", "message", "depmsg", "union", "tailstruct">>
 
 StructFields(T) == << Fld("pre", P("bool")), Fld("f", T), Fld("post", P("uint8")) >>
 MsgFields(T, dep) == << MFld(1, "pre", P("bool"), FALSE), MFld(2, "f", T, dep),
@@ -123,6 +125,8 @@ MsgFields(T, dep) == << MFld(1, "pre", P("bool"), FALSE), MFld(2, "f", T, dep),
 
 RootDefs(T, ctx) ==
   CASE ctx = "struct"   -> << [name |-> "Root", kind |-> "struct", ro |-> FALSE, fields |-> StructFields(T)] >>
+    [] ctx = "tailstruct" -> << [name |-> "Root", kind |-> "struct", ro |-> FALSE,
+                                  fields |-> << Fld("pre", P("bool")), Fld("f", T) >>] >>   \* the shape ends the buffer
     [] ctx = "rostruct" -> << [name |-> "Root", kind |-> "struct", ro |-> TRUE, fields |-> StructFields(T)] >>
     [] ctx = "message"  -> << [name |-> "Root", kind |-> "message", fields |-> MsgFields(T, FALSE)] >>
     [] ctx = "depmsg"   -> << [name |-> "Root", kind |-> "message", fields |-> MsgFields(T, TRUE)] >>
